@@ -29,9 +29,11 @@ def _base(rng, used, eps, qstyle_p):
             new = cand
     used.update(new)
     qm = dict(zip(a['Q'], new))
-    syms = sorted(a['Sigma'])
+    # alphabets of different bases need not be nested: {a}, {b}, {a,c}, ...
+    sm = dict(zip(sorted(a['Sigma']), rng.sample('abc', len(a['Sigma']))))
+    syms = sorted(sm.values())
     s = {'kind': 'nfa', 'Q': names.shuffled(rng, [qm[q] for q in a['Q']]), 'Sigma': syms,
-         'delta': [[qm[q], (eps if x == a['eps'] else x), [qm[t] for t in T]] for q, x, T in a['delta']],
+         'delta': [[qm[q], (eps if x == a['eps'] else sm[x]), [qm[t] for t in T]] for q, x, T in a['delta']],
          'q0': qm[a['q0']], 'F': [qm[q] for q in a['F']], 'eps': eps, 'dd': rng.random() < 0.6}
     if rng.random() < 0.3 and len(s['delta']) >= 1:
         # legal but unusual: several keys of delta hold the SAME set object (e.g. built with dict.fromkeys)
